@@ -18,6 +18,7 @@ func noteOns(f smf.File) []int {
 
 func init() {
 	register("c17", Def{
+		Debug:      true,
 		Rule:       "28 supported keys: `info key describe --key K`, then each of the 14 listed chords fed through `text conv syllable --key K | write --key K`; one record per (key, chord), all distinct",
 		Exhaustive: true,
 		Gen: func(c *Ctx) []Case {
